@@ -13,6 +13,7 @@ import (
 	"time"
 
 	"verif/internal/c02"
+	"verif/internal/c03b"
 	"verif/internal/c08"
 	"verif/internal/c10"
 	"verif/internal/c17"
@@ -20,6 +21,8 @@ import (
 	"verif/internal/c20"
 	"verif/internal/chancheck"
 	"verif/internal/evidence"
+	"verif/internal/jbuild"
+	"verif/internal/progeng"
 	"verif/internal/synccheck"
 )
 
@@ -115,7 +118,28 @@ func check(id, tier string) int {
 		} else {
 			opt.Cases, opt.RunsPerCase, opt.Budget = 150000, 12, 60*time.Minute
 		}
-		return chancheck.Run(opt)
+		codeA, evA := chancheck.RunCollect(opt)
+		if evA == nil {
+			return 2
+		}
+		codeB, evB := progeng.RunCollect(c03b.Spec(tier, seed(), workers()))
+		if evB == nil {
+			return 2
+		}
+		evA.Coverage["evaluations"] = evA.Coverage["evaluations"].(int) + evB.Coverage["evaluations"].(int)
+		evA.Coverage["distinct_nontrivial"] = evA.Coverage["distinct_nontrivial"].(int) + evB.Coverage["distinct_nontrivial"].(int)
+		evA.Coverage["rule"] = "workload A: " + evA.Coverage["rule"].(string) + "; " + evB.Coverage["rule"].(string)
+		evA.Coverage["workload_B"] = map[string]any{"programs": evB.Coverage["programs"], "distinct_schedules": evB.Coverage["distinct_schedules"], "counters": evB.Coverage["counters"], "samples": evB.Coverage["samples"]}
+		evA.Violations += evB.Violations
+		evA.WallS += evB.WallS
+		if err := evA.Write(jbuild.VerifDir()); err != nil {
+			fmt.Fprintln(os.Stderr, err)
+			return 2
+		}
+		if codeA == 1 || codeB == 1 {
+			return 1
+		}
+		return 0
 	case "C11":
 		opt := chancheck.Options{Property: "C11", Tier: tier, Seed: seed(), Workers: workers(), MaxStates: 200000, Callbacks: true, Curated: chancheck.CallbackClassics()}
 		if quick {
@@ -149,6 +173,8 @@ func replay(rp *evidence.Replay) int {
 	switch rp.Kind {
 	case "program:C02":
 		return c02.Replay(rp)
+	case "program:C03":
+		return progeng.Replay(c03b.Spec("quick", rp.Seed, 1), rp)
 	case "program:C08":
 		return c08.Replay(rp)
 	case "program:C10":
